@@ -51,10 +51,31 @@ def converters_then_base(rng):
             {"inputs": [["Root", data]], "cmps": cmps, "job": j2, "tree": None}]
 
 
+def clash_layout_switch(rng):
+    """two root models; a child of the first collides (after class-name conversion) with the second root: the nested
+    walk meets the child first, the flat walk the root first. One registry rendered in one layout, then in the other."""
+    k1, k2 = rng.choice([("foo.bar", "Foobar"), ("données", "Donnee"), ("a.b", "Ab"), ("list", "List_")])
+    inputs = [["Order", [{k1: {"x": 1, "y": 2}, "n": 1}]], [k2, [{"z": "s", "w": True}]]]
+    cmps = [["percent", 7, 10], ["number", 10]]
+    layouts = ["flat", "nested"]
+    rng.shuffle(layouts)
+    fw = rng.choice(common.FRAMEWORKS)
+    j1 = common.gen_job(rng, fw=fw, layout=layouts[0])
+    j2 = common.gen_job(rng, fw=fw, layout=layouts[1])
+    for j in (j1, j2):
+        j.update({"convertUnicode": True, "preamble": None})
+        j.pop("renderFirst", None)
+        j.pop("structureReuse", None)
+    return [{"inputs": inputs, "cmps": cmps, "job": j1, "tree": True},
+            {"inputs": inputs, "cmps": cmps, "job": j2, "reuse": 0, "tree": True}]
+
+
 def gen_history(rng):
     n = rng.randint(2, 4)
     hist = []
     r0 = rng.random()
+    if 0.8 < r0 <= 0.9:
+        return clash_layout_switch(rng)
     if r0 > 0.9:
         hist.extend(converters_then_base(rng))
         if rng.random() < 0.5:
